@@ -8,7 +8,10 @@ import (
 )
 
 // boundaryAlpha: characters at the edges of every symbology's alphabet.
-var boundaryAlpha = []string{"\x00", "\x1f", " ", "*", "+", "-", "0", "9", "A", "Z", "a", "\x7f", "\x80", "ñ", "ô", "õ", "€", "\xff"}
+var boundaryAlpha = []string{"\x00", "\x1f", " ", "*", "+", "-", "0", "9", "A", "Z", "a", "\x7f", "\x80", "ñ", "ô", "õ", "€", "\xff",
+	// characters of Unicode classes that an ASCII-only alphabet must not absorb: Arabic-Indic and
+	// fullwidth digits, fullwidth letter, no-break space
+	"٣", "３", "Ａ", "\u00a0"}
 
 func c10Body(c *core.Ctx) {
 	// 1. the enumerations of C01-C08 pass through the same three-valued acceptance oracle
@@ -66,18 +69,21 @@ func c10Body(c *core.Ctx) {
 			}
 		}
 	}
-	// 3b. Aztec: what automatic sizing fits into a size, the explicit request for that size must accept
-	// (evaluated inside the az evaluator): every length through the compact sizes, a sweep beyond
-	for _, p := range []int{0, 10, 16, 33} {
-		for n := 1; n <= 1900; n++ {
-			if n > 200 && n%7 != 0 {
-				continue
-			}
-			for fi, fill := range azFills {
-				if fi == 3 || fi > 4 {
-					continue
-				}
-				Run(c, &core.Case{Fam: "az", S: fill(n), P: []int{p, 0}})
+	// 3b. runs of non-ASCII characters (digit runs drive numeric compaction / code set C)
+	for _, ch := range []string{"٣", "３", "Ａ", "é", "\u00a0"} {
+		for _, n := range []int{1, 2, 4, 5, 6, 12, 13, 14, 20, 44, 45} {
+			run := strings.Repeat(ch, n)
+			for _, s := range []string{run, "AB" + run, run + "12", "12" + run + "cd"} {
+				b := []byte(s)
+				Run(c, &core.Case{Fam: "pdf", S: b, P: []int{0}})
+				Run(c, &core.Case{Fam: "pdf", S: b, P: []int{4}})
+				Run(c, &core.Case{Fam: "dm", S: b})
+				Run(c, &core.Case{Fam: "az", S: b, P: []int{33, 0}})
+				Run(c, &core.Case{Fam: "qr", S: b, P: []int{1, 0}})
+				Run(c, &core.Case{Fam: "qr", S: b, P: []int{1, 1}})
+				Run(c, &core.Case{Fam: "c128", S: b, P: []int{1}})
+				Run(c, &core.Case{Fam: "tof", S: b, P: []int{1}})
+				Run(c, &core.Case{Fam: "ean", S: b})
 			}
 		}
 	}
